@@ -383,8 +383,8 @@ def check_mutant(src, mutated, kind):
 def plan(tier):
     specs = [{'kind': 'targeted', 'part': i, 'parts': 8 if tier == 'quick' else 16} for i in range(8 if tier == 'quick' else 16)]
     k = 4 if tier == 'quick' else 16
-    specs += [{'kind': 'soup', 'n': 2500 if tier == 'quick' else 60000, 'k': i} for i in range(k)]
-    specs += [{'kind': 'mutants', 'n': 1500 if tier == 'quick' else 30000, 'k': i} for i in range(k)]
+    specs += [{'kind': 'soup', 'n': 6000 if tier == 'quick' else 60000, 'k': i} for i in range(k)]
+    specs += [{'kind': 'mutants', 'n': 3000 if tier == 'quick' else 30000, 'k': i} for i in range(k)]
     return specs
 
 
